@@ -82,7 +82,14 @@ def mk(code, n):
     if code in STRUCTS:
         return tuple(mk(c, n + i) for i, (_f, c) in enumerate(STRUCTS[code]))
     bits = 8 * ctypes.sizeof(CT[code])
-    v = (n * 2654435761 + 12345) % (1 << bits)
+    span = 1 << bits
+    r = n % 7
+    if r == 0:
+        v = span - 1 - (n // 7) % 251           # the top of the unsigned range / -1, -2, ... when signed
+    elif r == 1:
+        v = (span >> 1) + (n // 7) % 251        # just above the sign bit / the most negative values
+    else:
+        v = (n * 2654435761 + 12345) % span
     return v - (1 << (bits - 1)) if code in SIGNED else v
 
 
@@ -213,8 +220,9 @@ def gen_spec(rng, for_shared=None):
                 'len': rng.randint(1, 3) if form == 'array' else None, 'by': 'len', 'init': None,
                 'lock': rng.choice([True, True, 'rlock'])}
     if for_shared == 'rmw':
-        code = rng.choice(WIDE + ['Pair'])
-        form = rng.choice(['value', 'value', 'array']) if code != 'Pair' else 'value'
+        code = rng.choice(WIDE + ['Pair', 'c', 'c'])
+        form = rng.choice(['value', 'value', 'array']) if code not in ('Pair', 'c') else \
+            ('array' if code == 'c' else 'value')       # (char arrays get a wrapper class of their own)
         return {'api': 'Array' if form == 'array' else 'Value', 'type': code,
                 'len': rng.randint(1, 3) if form == 'array' else None, 'by': 'len', 'init': None,
                 'lock': rng.choice([True, 'rlock'])}
